@@ -331,6 +331,12 @@ class LFS:
         stdout = self.run_lfs("hsm_action", path)["output"]
         if stdout is None:
             return None  # Command returned error
+
+        # The output starts with the path itself (as for hsm_state): don't
+        # look for the action name inside the path.
+        if stdout.startswith(path + ":"):
+            stdout = stdout[len(path) :]
+
         return "RESTORE" in stdout
 
     def hsm_state(self, path: os.PathLike | str) -> HSMState:
